@@ -109,6 +109,7 @@ func (s *Sched) Run(bodies []func()) {
 	<-s.allDone
 	zverif.PoolOpHook = nil
 	zverif.YieldHook = nil
+	zverif.SyncHook = nil
 	zverif.PutHook = nil
 	if he, ok := s.Err.(mc.HarnessError); ok {
 		panic(he)
@@ -118,6 +119,9 @@ func (s *Sched) Run(bodies []func()) {
 // InstallHooks wires the yield points and the pool-ownership monitor. zh.Install must have been called before.
 func (s *Sched) InstallHooks() {
 	zverif.PoolOpHook = func(p *zverif.Pool, op string) { s.Yield() }
+	if !s.Fine {
+		zverif.SyncHook = func(site int) { s.Yield() } // fine mode yields before every statement anyway
+	}
 	if s.Fine {
 		zverif.YieldHook = func(site int) { s.Yield() }
 	}
